@@ -18,7 +18,14 @@ pub enum Op {
     Rebind(u32),
     IntoList(u32),
     IntoTuple(u32),
+    /// `d = {"k": v}`: a dict value is moved like a list element
+    IntoDict(u32),
     Take(u32),
+    /// a nested procedure whose parameter has the same name as an outer variable and does not
+    /// touch it: neither a use nor a move of the outer variable
+    ShadowParam(u32),
+    /// the same with a local binding of that name
+    ShadowLocal(u32),
     /// non-moves: reference parameters, immutable parameter, print!, method call
     Look(u32),
     Peek(u32),
@@ -122,6 +129,28 @@ fn build(case: &Case) -> Built {
                     lines.push(format!("{} = ({}, 1)", new_name("t"), vars[i].name));
                 }
             }
+            Op::IntoDict(s) => {
+                if let Some(i) = pick(*s, &vars, false) {
+                    classes.insert("move:dict-value");
+                    use_of(i, &mut vars, &lines, true);
+                    lines.push(format!("{} = {{\"k\": {}}}", new_name("d"), vars[i].name));
+                }
+            }
+            Op::ShadowParam(s) => {
+                if let Some(i) = pick(*s, &vars, false) {
+                    classes.insert("shadow:parameter");
+                    lines.push(format!("{}!({}: Int) = print! 0", new_name("h"), vars[i].name));
+                }
+            }
+            Op::ShadowLocal(s) => {
+                if let Some(i) = pick(*s, &vars, false) {
+                    classes.insert("shadow:local");
+                    let h = new_name("h");
+                    lines.push(format!("{h}!() ="));
+                    lines.push(format!("    {} = 1", vars[i].name));
+                    lines.push("    print! 0".to_string());
+                }
+            }
             Op::Take(s) => {
                 if let Some(i) = pick(*s, &vars, false) {
                     classes.insert("move:mutable-parameter");
@@ -202,7 +231,7 @@ impl Property for C23 {
         "C23"
     }
     fn rule(&self) -> String {
-        "straight-line scripts of up to 14 operations over mutable variables (`v = ![..]`, `n = !k`) at module top level or inside a procedure body: rebinding `w = v`, list `[v]` and tuple `(v, 1)` construction, passing for a mutable-typed parameter (moves); passing for RefMut / Ref / immutable parameters, print!, a procedural method call (uses that do not move). Oracle (reference model: a moved set stepped over the script): the checker reports >= 1 MoveError exactly when the model has a use after a move, every MoveError lies on a line the model marks, and no other error kind is reported. Non-trivial = >= 1 move followed by a later statement; distinct by case".into()
+        "straight-line scripts of up to 14 operations over mutable variables (`v = ![..]`, `n = !k`) at module top level or inside a procedure body: rebinding `w = v`, list `[v]`, tuple `(v, 1)` and dict `{\"k\": v}` construction, passing for a mutable-typed parameter (moves); passing for RefMut / Ref / immutable parameters, print!, a procedural method call (uses that do not move); nested procedures with a parameter or local of the same name as an outer variable (neither use nor move). Oracle (reference model: a moved set stepped over the script): the checker reports >= 1 MoveError exactly when the model has a use after a move, every MoveError lies on a line the model marks, and no other error kind is reported. Non-trivial = >= 1 move followed by a later statement; distinct by case".into()
     }
     fn strategy(&self, _tier: Tier) -> BoxedStrategy<Case> {
         let op = prop_oneof![
@@ -211,6 +240,9 @@ impl Property for C23 {
             3 => any::<u32>().prop_map(Op::Rebind),
             2 => any::<u32>().prop_map(Op::IntoList),
             2 => any::<u32>().prop_map(Op::IntoTuple),
+            2 => any::<u32>().prop_map(Op::IntoDict),
+            1 => any::<u32>().prop_map(Op::ShadowParam),
+            1 => any::<u32>().prop_map(Op::ShadowLocal),
             3 => any::<u32>().prop_map(Op::Take),
             2 => any::<u32>().prop_map(Op::Look),
             2 => any::<u32>().prop_map(Op::Peek),
